@@ -231,6 +231,7 @@ class Program:
                 self._row(st[1], env, self._line[id(st)])
 
     def _row(self, ents, env, line):
+        self._env = env
         vals = []
         for en in ents:
             if en[0] == "e":
@@ -292,7 +293,11 @@ class Program:
                 else:
                     exps.append((s[1], "X"))
         self.prev = list(ent)
-        self.rows.append({"line": line, "inputs": ins, "expected": exps, "checked": checked})
+        flat = {}
+        for fr in self._env:
+            for k_, v_ in fr.items():
+                flat[k_] = str(v_)
+        self.rows.append({"line": line, "inputs": ins, "expected": exps, "checked": checked, "vars": flat})
         if len(self.rows) >= self.max_rows:
             raise StopIteration
 
@@ -319,6 +324,8 @@ def reference_judge_one(o, sc):
         ge = [(n, e) for n, e, _, _, _ in g["outputs"]]
         if ge != w["expected"]:
             return "row %d (line %d) expects %s, reference %s (%s)" % (k + 1, g["line"], ge, w["expected"], sc.note)
+        if sc.show_vars and k < len(o.vars) and o.vars[k] != w["vars"]:
+            return "vars() at row %d (line %d) is %s, reference %s (%s)" % (k + 1, g["line"], o.vars[k], w["vars"], sc.note)
     if len(got) != len(want):
         return "%d rows, reference %d (%s)" % (len(got), len(want), sc.note)
     errs = [i for i in o.items if i[0] == "err"]
@@ -522,7 +529,10 @@ def expansion_programs(rng, count=40):
 _CACHE = {}
 
 
-def reference_battery(kinds=("expressions", "control", "expansion"), seed=20260926):
+def reference_battery(kinds=("expressions", "control", "expansion"), seed=20260926, show_vars=False):
+    if show_vars:
+        return [Scenario(s.source, s.signals, default_answer=s.default_answer, max_rows=s.max_rows, expect=s.expect,
+                         note=s.note + " (with vars)", show_vars=True) for s in reference_battery(kinds, seed)]
     key = (tuple(kinds), seed)
     if key not in _CACHE:
         rng = random.Random(seed)
@@ -537,7 +547,7 @@ def reference_battery(kinds=("expressions", "control", "expansion"), seed=202609
     return _CACHE[key]
 
 
-def with_reference(rep, kinds=("expressions", "control", "expansion")):
+def with_reference(rep, kinds=("expressions", "control", "expansion"), show_vars=False):
     """rep (dri.Rep) extended by the reference battery: scenarios that carry reference rows are judged against them,
     all others by the family's own judge."""
     from .common import no_panic_judge
@@ -549,4 +559,4 @@ def with_reference(rep, kinds=("expressions", "control", "expansion")):
         if sc.expect and "ref_rows" in sc.expect:
             return ref_judge(obs, sc)
         return own(obs, sc)
-    return dri.Rep(rep.facts, list(rep.battery) + reference_battery(kinds), judge)
+    return dri.Rep(rep.facts, list(rep.battery) + reference_battery(kinds, show_vars=show_vars), judge)
